@@ -20,6 +20,19 @@ import (
 type Case struct {
 	Text vkit.B `json:"text"`
 	Rule int    `json:"rule"`
+	// Limit: roman.MaxInputLength for the case: 0 = package default (128), -1 = disabled, n > 0 = n.
+	Limit int `json:"max_input_length,omitempty"`
+}
+
+func setLimit(l int) func() {
+	old := roman.MaxInputLength
+	switch {
+	case l < 0:
+		roman.MaxInputLength = 0
+	case l > 0:
+		roman.MaxInputLength = l
+	}
+	return func() { roman.MaxInputLength = old }
 }
 
 const sentinel = roman.Number(777)
@@ -151,6 +164,7 @@ func TestCheck(t *testing.T) {
 		if err := r.LoadReplay(&c); err != nil {
 			t.Fatalf("replay: %v", err)
 		}
+		defer setLimit(c.Limit)()
 		r.Serial(func(w *vkit.W) { judge(c, w); w.Eval(true) })
 		return
 	}
@@ -163,11 +177,12 @@ func TestCheck(t *testing.T) {
 		if err := json.Unmarshal(raw, &c); err != nil {
 			return err
 		}
+		defer setLimit(c.Limit)()
 		judge(c, w)
 		w.Eval(true)
 		return nil
 	})
-	rules := []int{0, int(roman.RuleDisableEmptyAsZero)}
+	rules := []int{0, int(roman.RuleDisableEmptyAsZero), int(roman.RuleDisableEmptyAsZero) | 1<<5, -2}
 
 	// Phase A: every string over the seven letters up to length L; all case masks up to length allMasks, else upper, lower and 4 seeded masks.
 	L := r.Pick(7, 9)
@@ -229,22 +244,58 @@ func TestCheck(t *testing.T) {
 
 	// Phase A2: every combination of the twelve forms of each group (additive and subtractive, short and long) behind 0-3 and
 	// 20 leading M, in upper, lower and alternating case: reaches the longest numerals (15 symbols after the thousands).
-	r.Phase("A2: all 12 x 12 x 12 group-form combinations x leading M counts x 3 letter cases", func() {
-		forms := func(one, five, ten string) []string {
-			return []string{"", one, one + one, one + one + one, one + five, one + one + one + one, five, five + one, five + one + one, five + one + one + one, one + ten, five + one + one + one + one}
-		}
-		hs, ts, us := forms("C", "D", "M"), forms("X", "L", "C"), forms("I", "V", "X")
-		r.Parallel(int64(len(hs)*len(ts)), 4, func(w *vkit.W, lo, hi int64) {
-			for k := lo; k < hi; k++ {
-				for _, u := range us {
-					for _, ms := range []int{0, 1, 2, 3, 20} {
-						base := []byte(strings.Repeat("M", ms) + hs[k/int64(len(ts))] + ts[k%int64(len(ts))] + u)
-						out := make([]byte, len(base))
-						for _, mask := range []uint64{0, ^uint64(0), 0x5555555555555555} {
-							text := string(applyMask(base, mask, out))
-							for _, rule := range rules {
-								judge(Case{Text: vkit.B(text), Rule: rule}, w)
-								w.Eval(len(text) > 0)
+	for _, lim := range []int{0, -1, 14, 300} {
+		lim := lim
+		r.Phase(fmt.Sprintf("A2: all 12 x 12 x 12 group-form combinations x leading M counts x 3 letter cases, MaxInputLength setting %d (0 = default 128, -1 = disabled)", lim), func() {
+			defer setLimit(lim)()
+			forms := func(one, five, ten string) []string {
+				return []string{"", one, one + one, one + one + one, one + five, one + one + one + one, five, five + one, five + one + one, five + one + one + one, one + ten, five + one + one + one + one}
+			}
+			hs, ts, us := forms("C", "D", "M"), forms("X", "L", "C"), forms("I", "V", "X")
+			r.Parallel(int64(len(hs)*len(ts)), 4, func(w *vkit.W, lo, hi int64) {
+				for k := lo; k < hi; k++ {
+					for _, u := range us {
+						for _, ms := range []int{0, 1, 2, 3, 20, 113, 114, 125, 126, 127, 128, 129, 130, 255, 256, 290} {
+							if ms > 20 && (lim == 0 && ms > 130 || k%12 != 0 || u == "") {
+								continue // long numerals: a thinner sample
+							}
+							base := []byte(strings.Repeat("M", ms) + hs[k/int64(len(ts))] + ts[k%int64(len(ts))] + u)
+							out := make([]byte, len(base))
+							for _, mask := range []uint64{0, ^uint64(0), 0x5555555555555555} {
+								text := string(applyMask(base, mask, out))
+								for _, rule := range rules {
+									judge(Case{Text: vkit.B(text), Rule: rule, Limit: lim}, w)
+									w.Eval(len(text) > 0)
+								}
+							}
+						}
+					}
+				}
+			})
+		})
+	}
+	r.Exhaustive("every combination of the 12 forms (additive/subtractive, short/long) of the hundreds, tens and units groups behind 0,1,2,3,20 leading M in three letter cases")
+
+	// Phase B: one foreign byte (all 256 values) or one confusable rune substituted/inserted at each position of accepted numerals.
+	nBase := r.Pick(300, 6000)
+	var aliasRunes []string
+	for _, rn := range ref.ConfusableRunes("IVXLCDMivxlcdm") {
+		aliasRunes = append(aliasRunes, string(rn))
+	}
+	r.Phase(fmt.Sprintf("B0: %d runes that fold or truncate to a roman letter, substituted/inserted at every position of numerals", len(aliasRunes)), func() {
+		bases := []string{"MCMXCIV", "mdclxvi", "XLII", "I", "MMXXIV", "dccc", ""}
+		r.Parallel(int64(len(aliasRunes)), 8, func(w *vkit.W, lo, hi int64) {
+			for i := lo; i < hi; i++ {
+				for _, base := range bases {
+					for pos := 0; pos <= len(base); pos++ {
+						for _, rule := range rules[:2] {
+							m := base[:pos] + aliasRunes[i] + base[pos:]
+							judge(Case{Text: vkit.B(m), Rule: rule}, w)
+							w.EvalRandom(vkit.Hash64(m, strconv.Itoa(rule)), true)
+							if pos < len(base) {
+								m = base[:pos] + aliasRunes[i] + base[pos+1:]
+								judge(Case{Text: vkit.B(m), Rule: rule}, w)
+								w.EvalRandom(vkit.Hash64(m, strconv.Itoa(rule)), true)
 							}
 						}
 					}
@@ -252,10 +303,6 @@ func TestCheck(t *testing.T) {
 			}
 		})
 	})
-	r.Exhaustive("every combination of the 12 forms (additive/subtractive, short/long) of the hundreds, tens and units groups behind 0,1,2,3,20 leading M in three letter cases")
-
-	// Phase B: one foreign byte (all 256 values) or one confusable rune substituted/inserted at each position of accepted numerals.
-	nBase := r.Pick(300, 6000)
 	confusables := []string{"ſ", "K", "İ", "ı", "Ⅰ", "Ⅿ", "Ⅴ", "Ⅹ", "Ⅼ", "Ⅽ", "Ⅾ", "ⅿ", "Ｉ", "Ｖ", "Ι", "М", "І"}
 	r.Phase(fmt.Sprintf("B: foreign byte/rune mutations of %d accepted numerals", nBase), func() {
 		r.Parallel(int64(nBase), 4, func(w *vkit.W, lo, hi int64) {
